@@ -275,6 +275,18 @@ mut("c08-no-end-barrier", "C08", B, """                    let alloc_info = if i
                     if let (Some(barrier), true) = (barrier, is_start) {
                         barrier.wait();
                     }""")
+BR = "src/util/thread/barrier.rs"
+mut("c08-break-does-not-wake", "C08", BR, """        state.is_broken = true;
+        for thread in state.waiting.drain(..) {
+            thread.unpark();
+        }""", """        state.is_broken = true;""")
+mut("c08-barrier-releases-one-early", "C08", BR, "if state.waiting.len() + 1 >= self.thread_count {", "if state.waiting.len() + 2 >= self.thread_count && self.thread_count > 2 || state.waiting.len() + 1 >= self.thread_count {")
+mut("c08-barrier-ignores-generation", "C08", BR, """            if state.generation != generation {
+                return;
+            }""", """            let _ = generation;
+            return;""")
+mut("c08-no-break-guard", "C08", B, """                let _break_on_panic =
+                    barrier.as_ref().map(SampleBarrier::break_on_panic);""", "")
 mut("c08-missing-result-ignored", "C08", B, """                    panic!("Divan benchmarking thread {thread} panicked");""", """                    if thread == 0 { panic!("Divan benchmarking thread {thread} panicked"); } else { return; }""")
 
 # ---- C02
@@ -396,9 +408,12 @@ mut("c16-kind-flipped", "C16", "src/entry/tree.rs", """            Self::Leaf { 
             Self::Parent { .. } => 0,""")
 mut("c16-location-ignores-col", "C16", "src/entry/tree.rs", "self.location().cmp(&other.location());", "self.location().map(|l| (l.file, l.line)).cmp(&other.location().map(|l| (l.file, l.line)));")
 mut("c16-reverse-groups-only", "C16", "src/entry/tree.rs", "apply_reverse(attr.cmp_bench_arg_names(a, b))", "attr.cmp_bench_arg_names(a, b)")
-mut("c16-negative-vs-positive", "C16", "src/config/mod.rs", """                                // a > b, because b is negative.
-                                break 'ordering Ordering::Greater;""", """                                // a > b, because b is negative.
-                                break 'ordering Ordering::Less;""")
+mut("c16-negative-vs-positive", "C16", "src/config/mod.rs", "let by_value = a.partial_cmp(b).unwrap_or(Ordering::Equal);", "let by_value = a.abs().partial_cmp(&b.abs()).unwrap_or(Ordering::Equal);")
+mut("c16-int-before-float-one-way", "C16", "src/config/mod.rs", """                    (None, Some(_)) => Ordering::Greater,
+                    (None, None) => Ordering::Equal,""", """                    (None, Some(_)) => Ordering::Less,
+                    (None, None) => Ordering::Equal,""")
+mut("c16-text-vs-number-natural", "C16", "src/config/mod.rs", """            (Self::Number { .. }, Self::Text(_)) => Ordering::Less,""", """            (Self::Number { value, .. }, Self::Text(b)) if *value < 0.0 => natural_cmp("-", b),
+            (Self::Number { .. }, Self::Text(_)) => Ordering::Less,""")
 mut("c16-const-cmp-by-name", "C16", "src/entry/generic.rs", "if self.partial_cmp == other.partial_cmp {", "if false {")
 
 # ---- C20
